@@ -7,6 +7,8 @@
     encsnap <t> <dataset tokens>        -> <file hex>                     (Rdb.encSnapshot)
     decsnap <now> <file hex>            -> ok <#allocs> <max alloc> <dataset tokens> | err <kind> <#allocs> <max alloc>
     live <now> <dataset tokens>         -> <dataset tokens>               (Spec: what a restart at `now` must yield)
+    hyps <t> <now> <dataset tokens>     -> <wf> <marker> <emptystream> <expires>   (0|1 each: the hypotheses / deviation
+                                           predicates of the theorems in Props/C09.lean, evaluated on this dataset)
 
   Dataset tokens (same grammar as harness/src/bin/impl_rdb.rs; deadlines are absolute ms):
     `D <db>`, then per key `K <key> <deadline|-> S <val>` | `L <hexlist>` | `T <hexlist>` | `H <flat hexlist>` |
@@ -181,6 +183,12 @@ def step (c : Cfg) (ws : List String) : Cfg × String :=
     match now.toNat?, parseDataset (if toks == ["."] then [] else toks) [] with
     | some now, some d => (c, (showDataset (live now d)).trimAscii.toString)
     | _, _ => (c, "bad-op")
+  | "hyps" :: t :: now :: toks =>
+    match t.toNat?, now.toNat?, parseDataset (if toks == ["."] then [] else toks) [] with
+    | some t, some now, some d =>
+      let b (x : Bool) : String := if x then "1" else "0"
+      (c, s!"{b (datasetWF d)} {b (anyEntry (fun e => startsWithMarker e.val) d)} {b (anyEntry (fun e => isEmptyStream e.val) d)} {b (anyEntry (expiresInDowntime t now) d)}")
+    | _, _, _ => (c, "bad-op")
   | _ => (c, "bad-op")
 
 def main : IO Unit := loop step ⟨[48, 46, 49, 46, 48], Fix.code⟩
